@@ -734,6 +734,8 @@ class CellsImpl(*_cells_impl_base):
 
     def on_inherit(self, updater, bases):
         self.model.clear_obj(self)
+        # ItemSpaces hold copies of the cells made from the previous base
+        self.parent.clear_subs_rootitems()
         self.formula = bases[0].formula
         self.allow_none = bases[0].allow_none
         self.is_cached = bases[0].is_cached
